@@ -282,16 +282,28 @@ def protocol(chk, prog, cls, methods):
     chk.touch(batch)
     batch = desugared(batch)       # enumerate / zip sample loops in index form
     n = 0
+    covered = set()
     own_attrs = {x.attr for g in cls.methods.values() if g.name in ("__init__",) or g.name.startswith("_set") for x in ast.walk(g.node)
                  if isinstance(x, ast.Attribute) and isinstance(x.ctx, ast.Store) and isinstance(x.value, ast.Name) and x.value.id == "self"}
     for loop in ast.walk(batch.node):
         if not isinstance(loop, ast.For) or not isinstance(loop.target, ast.Name):
             continue
         t = loop.target.id
-        for s in loop.body:
-            if not (isinstance(s, ast.Assign) and isinstance(s.value, ast.Call)):
+        # row stores of the loop body, also under `if <configuration>:` arms and as the arms of a conditional expression (merged IMU / MARG loops)
+        def _stmts(body):
+            for s_ in body:
+                if isinstance(s_, ast.If):
+                    yield from _stmts(s_.body)
+                    yield from _stmts(s_.orelse)
+                else:
+                    yield s_
+        pairs = []
+        for s in _stmts(loop.body):
+            if not isinstance(s, ast.Assign):
                 continue
-            call = s.value
+            arms = [s.value.body, s.value.orelse] if isinstance(s.value, ast.IfExp) else [s.value]
+            pairs.extend((s, a_) for a_ in arms if isinstance(a_, ast.Call))
+        for s, call in pairs:
             fn = call.func
             if not (isinstance(fn, ast.Attribute) and isinstance(fn.value, ast.Name) and fn.value.id == "self"):
                 continue
@@ -300,6 +312,7 @@ def protocol(chk, prog, cls, methods):
                     continue      # AQUA's gyro-less arms are single-frame estimates (C07's clause)
                 continue
             n += 1
+            covered.add(fn.attr)
             callee = cls.lookup(fn.attr)
             params = callee.params[1:]
             site = "%s::for %s: %s" % (batch.ref, t, stmt_text(s))
@@ -369,8 +382,9 @@ def protocol(chk, prog, cls, methods):
                 if not (isinstance(idx, ast.Name) and idx.id == t):
                     continue
                 v = s.value
-                ok = isinstance(v, ast.Call) and isinstance(v.func, ast.Attribute) and isinstance(v.func.value, ast.Name) and v.func.value.id == "self" \
-                    and (v.func.attr in methods or v.func.attr == "estimate")
+                arms_ = [v.body, v.orelse] if isinstance(v, ast.IfExp) else [v]
+                ok = all(isinstance(a_, ast.Call) and isinstance(a_.func, ast.Attribute) and isinstance(a_.func.value, ast.Name) and a_.func.value.id == "self"
+                         and (a_.func.attr in methods or a_.func.attr == "estimate") for a_ in arms_)
                 site = "%s::for %s: %s" % (batch.ref, t, stmt_text(s)[:60])
                 if not ok:
                     why = "row `%s` of the batch output is computed by `%s`, not by the streaming method (%s): the batch route runs different code from the sample-by-sample route" % (
@@ -407,8 +421,8 @@ def protocol(chk, prog, cls, methods):
                     why = "the batch routine assigns self.%s, which the streaming method reads: an instance created without data never gets this initialisation, so streaming the same samples starts from a different state" % tg.attr
                     chk.record("PROTOCOL.state", "%s::self.%s" % (batch.ref, tg.attr), "the batch routine does not initialise state the streaming method reads", verdict="VIOLATION", detail=why)
                     chk.finding("PROTOCOL.state", batch.module.rel, batch.qname, "self.%s assigned in the batch routine" % tg.attr, why, line=s.lineno)
-    if n < len(methods):
-        chk.error("PROTOCOL: %s._compute_all has %d streaming loops, expected %d" % (cls.name, n, len(methods)))
+    if len(covered) < len(set(methods)):
+        chk.error("PROTOCOL: %s._compute_all calls %d of the %d streaming methods in its sample loops (%s missing)" % (cls.name, len(covered), len(set(methods)), ", ".join(sorted(set(methods) - covered))))
 
 
 def _default_of(callee, p):
